@@ -8,7 +8,7 @@
                             -> ok <nactions> <raw line>... | P
         kind: E | N | O | A<evalOp><lowerName><valueEmpty><hasComment>  (bits 0/1)
      trim <n> <raw>...      -> ok <raw>... | P
-     dir <raw0> <indent> <depth>  -> <s> | P
+     dir <stmtsNil 0|1> <raw0> <indent> <depth>  -> <s> | P
      shell <0|1> <n> <raw>...     -> ok <raw>... | P
      sav <n> <raw>... <varname> <space> <op> <lc> <vo> <sbv> <val> <sav> <cont> -> ok <raw>... | P
      optw <n> { <lc> <vo> <sbv> <val> <sav> <cont> }  -> <n>   optimalWidth of first lines *)
@@ -61,8 +61,8 @@ let handle (args : string list) : string =
   | "trim" :: n :: rest ->
     let (ls, _) = take_n (int_of_string n) rest [] in
     (match checkTrailingWhitespace ls with Panic -> "P" | Ok o -> ok_lines o)
-  | ["dir"; r0; ind; d] ->
-    (match checkDirectiveIndentation (bytes_of_hex r0) (bytes_of_hex ind) (z_of_int (int_of_string d)) with
+  | ["dir"; sn; r0; ind; d] ->
+    (match checkDirectiveIndentation (sn = "1") (bytes_of_hex r0) (bytes_of_hex ind) (z_of_int (int_of_string d)) with
      | Panic -> "P" | Ok s -> hex_of_bytes s)
   | "shell" :: flag :: n :: rest ->
     let (ls, _) = take_n (int_of_string n) rest [] in
